@@ -12,6 +12,7 @@ import (
 	"github.com/cockroachdb/pebble"
 
 	"github.com/oxia-db/oxia/common/compare"
+	"github.com/oxia-db/oxia/proto"
 	"github.com/oxia-db/oxia/server/kv"
 )
 
@@ -25,6 +26,9 @@ func c11Key(g *Rng) string {
 		return fmt.Sprintf("flat-%05d", g.Intn(5000))
 	case 2:
 		return fmt.Sprintf("/ns/%d/%03d", g.Intn(4), g.Intn(400))
+	case 3: // first path element of 7..12 bytes (around the 8-byte key abbreviation the engine indexes batches by)
+		first := []string{"tenant-", "tenant-a", "tenant-al", "zookeeper-1", "abcdefgh", "abcdefg", "abcdefghi", "users-eu-west"}[g.Intn(8)]
+		return first + []string{"", "/", "/cfg", "/k" + fmt.Sprint(g.Intn(30)), "/a/b"}[g.Intn(5)]
 	}
 	n := g.Range(1, 9)
 	var sb strings.Builder
@@ -206,6 +210,61 @@ func runC11(r *Run) {
 			}
 			_ = wb.Close()
 			prog = append(prog, fmt.Sprintf("put x%d", n))
+		case op < 59: // one batch that is written to and read from before it is committed
+			n := sg.Range(2, 60)
+			wb := k.NewWriteBatch()
+			for i := 0; i < n; i++ {
+				key := c11Key(sg)
+				val := sg.Bytes(sg.Range(0, 40))
+				if err := wb.Put(key, val); err != nil {
+					r.Fail("put-error", "%v", err)
+				}
+				model[key] = val
+			}
+			ks := sortedKeys() // what the batch must show: the committed keys plus its own puts
+			for p := 0; p < 12 && !r.Failed(); p++ {
+				a, b := c11Key(sg), c11Key(sg)
+				if sg.Chance(50) && len(ks) > 0 {
+					a = ks[sg.Intn(len(ks))]
+				}
+				if refCompare(a, b) > 0 {
+					a, b = b, a
+				}
+				want := refRange(ks, a, b)
+				kit, err := wb.KeyRangeScan(a, b)
+				if err != nil {
+					r.Fail("scan-error", "%v", err)
+					break
+				}
+				var got []string
+				for ; kit.Valid(); kit.Next() {
+					got = append(got, kit.Key())
+				}
+				_ = kit.Close()
+				if strings.Join(got, "\x00") != strings.Join(want, "\x00") {
+					r.Fail("in-batch-range-mismatch", "uncommitted batch of %d puts: list[%q,%q) returned %q, reference %q", n, a, b, got, want)
+					break
+				}
+				wantLower := refLookup(ks, a, proto.KeyComparisonType_LOWER)
+				gotLower, err := wb.FindLower(a)
+				if err != nil && err != kv.ErrKeyNotFound {
+					r.Fail("get-error", "in-batch FindLower(%q): %v", a, err)
+					break
+				}
+				if err == kv.ErrKeyNotFound {
+					gotLower = ""
+				}
+				if gotLower != wantLower {
+					r.Fail("in-batch-lookup-mismatch", "uncommitted batch of %d puts: FindLower(%q) = %q, reference %q", n, a, gotLower, wantLower)
+					break
+				}
+			}
+			if err := wb.Commit(); err != nil {
+				r.Fail("commit-error", "%v", err)
+			}
+			_ = wb.Close()
+			prog = append(prog, fmt.Sprintf("put x%d with in-batch reads", n))
+			r.Count("in_batch_read_steps", 1)
 		case op < 63: // deletes
 			ks := sortedKeys()
 			wb := k.NewWriteBatch()
